@@ -8,6 +8,11 @@ development branch, hotfix with and without its base tag, archived names, other 
 outside the grammar) x branch_from (absent, a branch, a commit inside / outside the latest development branch,
 something git cannot resolve), delete_branch (every destination, absent and non-destination names),
 rebuild_queues, delete_queues, force_merge_queues, and create -> delete -> create scenarios.
+A second family of states (`gen_resume_state`) has the archive tag of a destination branch already on its tip -
+left there by a delete_branch job that really died between the push of the tag and the removal of the branch (the
+crash injector of harness/c02_faults.py) or put there by hand - combined with what happened since: a pull request
+queued on that branch, a stabilization branch created for that development branch, or nothing; for development,
+stabilization and hotfix branches, queues on and off. The re-submitted delete_branch is run on them.
 Observed per job: status, details, the `git push` commands in order, refs and tags before/after, the
 pull-request jobs the job left on the task queue. After a job that changed the remote, the refs and tags of
 the bare repository are put back (the commit objects stay), so that every job sees the reached state.
@@ -47,7 +52,9 @@ TRUSTED = [
     'the C09 model), tied to the code by the differential run of every job',
     'lean/BertE/Drv/C20.lean (line protocol; classification of raw names by the C18 model)',
     'harness/c20.py (state export: refs, tags, ancestry from real git; push tracing by wrapping bert_e.lib.git.cmd; '
-    'restoration of refs between jobs), harness/system.py, harness/histories.py (state-reaching histories)',
+    'restoration of refs between jobs), harness/system.py, harness/histories.py (state-reaching histories), '
+    'harness/c02_faults.py (the crash injector that kills a delete_branch job between the push of the archive tag and '
+    'the removal of the branch)',
 ]
 
 RULE = ('repository states reached by seeded histories (8 cascade templates of C01 + base tag 4.2.17.0, a hotfix branch '
@@ -62,7 +69,13 @@ RULE = ('repository states reached by seeded histories (8 cascade templates of C
         'delete_queues, force_merge_queues, one scenario of {create->delete->create newer development, hotfix '
         'create->delete->create(+from), delete->create->delete existing, stabilization create->delete->create->next}; '
         'every job compared with the model (status, failure reason, ordered pushes, refs, tags, re-submitted pull '
-        'requests) and checked by the property oracle; non-trivial = every job but NotMyJob')
+        'requests) and checked by the property oracle; non-trivial = every job but NotMyJob. '
+        'Resume states: {development, stabilization, hotfix branch} x {delete_branch really killed between the push '
+        'of the archive tag and the removal of the branch, archive tag put on the tip by hand before / after what '
+        'follows} x {then a pull request queued on that branch, then a stabilization branch created for it '
+        '(development), then a pull request merged into it (the tag is no longer on the tip), nothing} x {queues on, '
+        'off}, every combination; jobs on them: the re-submitted delete_branch, '
+        'delete of another destination, rebuild_queues, delete_queues -> delete_branch, delete -> create -> delete')
 
 # --------------------------------------------------------------------------- names
 
@@ -347,6 +360,24 @@ def queued_ids(refs):
     return sorted({int(m.group(1)) for n in refs for m in [re.match(r'^q/w/(\d+)/', n)] if m})
 
 
+def queue_of(name):
+    """the destination branch a pull request with the queue-integration branch `name` (q/w/<id>/<version>/<src>) is
+    queued on: two numbers = development/x.y, three = stabilization/x.y.z, four = the hotfix line x.y.z"""
+    m = re.match(r'^q/w/\d+/(\d+(?:\.\d+){0,3})/', name)
+    if not m:
+        return None
+    n = m.group(1).count('.')
+    if n <= 1:
+        return 'development/' + m.group(1)
+    if n == 2:
+        return 'stabilization/' + m.group(1)
+    return 'hotfix/' + m.group(1).rsplit('.', 1)[0]
+
+
+def archive_tag_of(b):
+    return version_of(b) + ('.archived_hotfix_branch' if b.startswith('hotfix/') else '')
+
+
 def oracle(obs):
     """The property text on one real observation. Returns a list of failures."""
     st = obs['step']
@@ -363,8 +394,8 @@ def oracle(obs):
         if kind == 'delete_branch' and obs['why'] == 'tagPush' and t0 == t1 and \
                 all(n.startswith('q/') and n not in r1 for n in set(r0) ^ set(r1)) and \
                 all(r0[n] == r1[n] for n in r1):
-            # `git tag` failed on an existing archive tag after the queue branch was deleted (see Props/C20.lean,
-            # C20_delete_refused_counterexample): only in states with a hand-pushed tag or hotfix branch
+            # `git tag` failed on an existing archive tag after the queue branch was deleted: the code before
+            # f819c35, in states with a hand-pushed tag or hotfix branch (since then the tag is looked at first)
             key = 'delete-refused-after-queue-deletion'
         bad(key, '%s %s answered %s but changed the remote: refs %s tags %s' % (
             kind, st.get('branch'), status,
@@ -404,6 +435,18 @@ def oracle(obs):
                     % (b, sorted(changed)))
     if kind == 'delete_branch':
         b = st['branch']
+        # "refuses while the branch has queued pull requests or, for a development branch, a live stabilization
+        # branch ... leaves the remote untouched" - whatever else holds of the state (archive tag present or not)
+        if b in r0 and DEST_RE.match(b):
+            queued = sorted(n for n in r0 if obs['use_queue'] and queue_of(n) == b)
+            m = re.match(r'^development/(\d+)\.(\d+)$', b)
+            stabs = sorted(n for n in r0 if m and re.match(r'^stabilization/%s\.%s\.\d+$' % m.groups(), n))
+            if (queued or stabs) and (status == 'JobSuccess' or r0 != r1 or t0 != t1):
+                bad('delete-must-refuse', 'delete_branch %s answered %s and changed %s although %s' % (
+                    b, status, sorted(n for n in set(r0) | set(r1) if r0.get(n) != r1.get(n)) +
+                    sorted('tag ' + n for n in set(t0) | set(t1) if t0.get(n) != t1.get(n)) or 'nothing',
+                    'pull requests are queued on it (%s)' % ', '.join(queued) if queued
+                    else '%s is alive' % stabs[0]))
         if b in r0 and b not in r1:          # deletion published
             ver = version_of(b)
             q = [n for n in r0 if re.match(r'^q/w/\d+/%s(\.\d+)?/' % re.escape(ver), n)
@@ -423,7 +466,9 @@ def oracle(obs):
             from .histories import ref_code
             ti = [i for i, o in enumerate(ops) if o == 'T:' + tag]
             di = [i for i, o in enumerate(ops) if o == 'D:' + ref_code(b)]
-            if not ti or not di or ti[0] > di[0]:
+            if t0.get(tag) == r0[b]:
+                pass        # the archive tag was already on the tip (an interrupted deletion is completed)
+            elif not ti or not di or ti[0] > di[0]:
                 bad('delete-before-tag', 'delete_branch %s: the archive tag is not pushed before the deletion: %s'
                     % (b, ops))
             other = {n for n in set(r0) | set(r1) if r0.get(n) != r1.get(n) and n != b and not n.startswith('q/')}
@@ -575,6 +620,164 @@ def job_list(rng, refs, tags, prs):
     return singles, scen[:1]
 
 
+# --------------------------------------------------------------------------- states with the archive tag on a tip
+
+RESUME_TEMPLATES = {
+    # kind of the branch whose deletion is resumed -> [(dests, tags, that branch)]
+    'development': [(['development/4.3', 'development/5.1', 'development/10.0'], [], 'development/5.1'),
+                    (['development/4.3', 'development/5.1', 'development/10.0'], [], 'development/10.0'),
+                    (['development/4.3', 'development/5.1'], [], 'development/4.3'),
+                    (['development/4.3', 'development/4', 'development/5.1'], [], 'development/4'),
+                    (['development/4.3', 'development/5.1', 'hotfix/4.2.17'], [], 'development/5.1')],
+    'development+stab': [(['development/4.3', 'stabilization/5.1.4', 'development/5.1', 'development/10.0'], ['5.1.3'],
+                          'development/5.1'),
+                         (['stabilization/4.3.18', 'development/4.3', 'development/5.1'], ['4.3.17'],
+                          'development/4.3')],
+    'stabilization': [(['development/4.3', 'stabilization/5.1.4', 'development/5.1', 'development/10.0'], ['5.1.3'],
+                       'stabilization/5.1.4'),
+                      (['stabilization/4.3.18', 'development/4.3', 'development/5.1'], ['4.3.17'],
+                       'stabilization/4.3.18')],
+    'hotfix': [(['development/4.3', 'development/5.1', 'hotfix/4.2.17'], [], 'hotfix/4.2.17'),
+               (['development/4.3', 'stabilization/5.1.4', 'development/5.1', 'development/10.0', 'hotfix/4.2.17'],
+                ['5.1.3'], 'hotfix/4.2.17')],
+}
+
+
+def resume_combos():
+    """(kind, how, then, queues on) - every combination that makes sense: a pull request is queued only with queues
+    on, a stabilization branch guards a development branch only; 'hand-after' differs from 'hand-before' only when
+    something follows; 'merged' = a pull request is merged into the branch after the interrupted deletion, so that
+    the archive tag is no longer on the tip (the job must then refuse as it does for any other tag of that name)"""
+    out = []
+    for queues in (True, False):
+        for kind in ('development', 'stabilization', 'hotfix'):
+            for how in ('interrupted', 'hand-before', 'hand-after'):
+                for then in ('nothing', 'queued', 'stab', 'merged'):
+                    if then == 'merged' and how != 'interrupted':
+                        continue
+                    if then == 'queued' and not queues:
+                        continue
+                    if then == 'stab' and kind != 'development':
+                        continue
+                    if then == 'nothing' and how == 'hand-after':
+                        continue
+                    out.append((kind, how, then, queues))
+    return out
+
+
+def gen_resume_state(rng, j):
+    """A state in which the archive tag of destination branch `b` sits on the tip of `b`, and what happened around
+    it. Returns (cfg, label, events, b)."""
+    from .system import Config
+    combos = resume_combos()
+    kind, how, then, queues = combos[j % len(combos)]
+    pool = RESUME_TEMPLATES[kind]
+    if kind == 'development' and then == 'stab' and how != 'interrupted' and rng.random() < 0.5:
+        pool = RESUME_TEMPLATES['development+stab']       # the stabilization branch is there from the start
+    dests, tags, b = rng.choice(pool)
+    dests = list(dests)
+    cfg = Config(dests, sorted(set(tags) | {'4.2.17.0'}), use_queue=queues,
+                 skip_queue=queues and then not in ('queued', 'merged') and rng.random() < 0.2, no_octopus=rng.random() < 0.3,
+                 create_prs=rng.random() < 0.5, create_branches=True, peers=0, leaders=0, author_approval=False,
+                 options=['bypass_jira_check', 'bypass_build_status'])
+    evs = []
+    npr = 0
+
+    def queue_pr(dst, stay=False):
+        nonlocal npr
+        npr += 1
+        evs.append({'op': 'open', 'pr': npr, 'dst': dst,
+                    'src': '%s/TEST-%04d' % (rng.choice(['feature', 'bugfix', 'improvement']), npr)})
+        evs.append({'op': 'progress', 'pr': npr})
+        if not stay and (not cfg.use_queue or rng.random() < 0.3):
+            evs.append({'op': 'progress', 'pr': npr})      # merged (queues off: at once; on: the queue is evaluated)
+
+    # something else going on in the repository: a pull request on another destination (its targets may include b)
+    others = [d for d in dests if d != b]
+    if others and rng.random() < 0.4:
+        queue_pr(rng.choice(others))
+        if how == 'interrupted' and queues and version_key_of(evs[0]['dst']) <= version_key_of(b) \
+                and not b.startswith('hotfix/') and not evs[0]['dst'].startswith('hotfix/'):
+            evs.append({'op': 'progress', 'pr': 1})        # let it merge: a queue on b would make the first delete refuse
+    tag_ev = {'op': 'interrupted_delete', 'branch': b} if how == 'interrupted' else {'op': 'tag_tip', 'branch': b}
+    follow = []
+    saved, evs = evs, follow
+    if then == 'queued':
+        queue_pr(b, stay=True)
+        if rng.random() < 0.3:
+            queue_pr(b, stay=True)
+    elif then == 'merged':
+        queue_pr(b, stay=True)
+        evs.append({'op': 'progress', 'pr': npr})
+        evs.append({'op': 'progress', 'pr': npr})
+    elif then == 'stab' and not any(d.startswith('stabilization/%s.' % version_of(b)) for d in dests):
+        micro = max([int(t.split('.')[2]) + 1 for t in cfg.tags if t.startswith(version_of(b) + '.')
+                     and t.count('.') >= 2] + [0])
+        evs.append({'op': 'job', 'kind': 'create_branch', 'branch': 'stabilization/%s.%d' % (version_of(b), micro)})
+    evs = saved
+    evs += [tag_ev] + follow if how != 'hand-after' else follow + [tag_ev]
+    label = '%s:%s:%s:%s' % (kind, how, then, 'queues' if queues else 'noqueue')
+    return cfg, label, evs, b
+
+
+def version_key_of(name):
+    from .system import version_key
+    return version_key(name) if not name.startswith('hotfix/') else (0, 0, 0)
+
+
+def resume_jobs(rng, refs, b):
+    """the jobs run on a resume state: the re-submitted delete_branch first"""
+    dests = [n for n in refs if DEST_RE.match(n)]
+    groups = [[{'job': 'delete_branch', 'branch': b}]]
+    others = [n for n in dests if n != b]
+    rng.shuffle(others)
+    for n in others[:1]:
+        groups.append([{'job': 'delete_branch', 'branch': n}])
+    groups.append([{'job': 'rebuild_queues'}])
+    # once the queues are gone nothing is queued any more: the deletion is completed (or still refused: live stab)
+    groups.append([{'job': 'delete_queues'}, {'job': 'delete_branch', 'branch': b}])
+    groups.append([{'job': 'delete_branch', 'branch': b}, {'job': 'create_branch', 'branch': b, 'from': None},
+                   {'job': 'delete_branch', 'branch': b}])
+    return groups
+
+
+def interrupted_delete(w, b):
+    """A delete_branch job on `b` that dies between the push of the archive tag and the removal of the branch: the
+    crash injector of C02 lets the operations before the removal through (the deletion of q/<version> when it is
+    there, the push of the tag) and fails the removal; the process is gone (`Died`), a new BertE instance takes over.
+    When the job refuses (nothing is pushed) the state simply has no archive tag."""
+    from .c02_faults import INJ, Died
+    INJ.attach(w)
+    try:
+        refs = w.refs()
+        k = 1 + (1 if w.cfg.use_queue and ('q/' + version_of(b)) in refs else 0)
+        INJ.begin_event({'j': 0, 'kind': 'crash', 'k': k})
+        try:
+            w.job('delete_branch', branch=b)
+        except Died:
+            pass
+    finally:
+        INJ.fault = None
+        INJ.in_job = False
+        INJ.world = None
+    w.fresh_instance()
+
+
+def execute_event(run, ev):
+    """the events of harness.histories plus the two that put an archive tag on a tip"""
+    from .system import git
+    op = ev['op']
+    if op == 'tag_tip':
+        refs = run.w.refs()
+        if ev['branch'] in refs:
+            git(run.w.bare, 'update-ref', 'refs/tags/' + archive_tag_of(ev['branch']), refs[ev['branch']])
+        return
+    if op == 'interrupted_delete':
+        interrupted_delete(run.w, ev['branch'])
+        return
+    run.execute(ev)
+
+
 def special_shas(w, refs):
     from .system import git
     devs = sorted((n for n in refs if n.startswith('development/')), key=lambda n: dev_sort_key(dev_key(n)))
@@ -605,13 +808,19 @@ def run_state(cfg, events, jobs=None, rng=None, base=None, limit=None):
     try:
         w = run.w
         for ev in events:
-            run.execute(ev)
+            execute_event(run, ev)
         refs, tags = w.refs(), w.tags()
+        info['tag_on_tip'] = sorted(n for n in refs if DEST_RE.match(n) and tags.get(archive_tag_of(n)) == refs[n])
+        info['tag_elsewhere'] = sorted(n for n in refs if DEST_RE.match(n) and archive_tag_of(n) in tags
+                                       and n not in info['tag_on_tip'])
+        info['queued_on'] = sorted({queue_of(n) for n in refs if queue_of(n)})
         info['queued'] = len(queued_ids(refs))
         info['hotfix_queue'] = any(re.match(r'^q/\d+\.\d+\.\d+\.\d+$', n) for n in refs)
         info['dests'] = sorted(n for n in refs if DEST_RE.match(n))
         exp = Export(w)
-        if jobs is None:
+        if callable(jobs):
+            groups = jobs(refs)
+        elif jobs is None:
             singles, scen = job_list(rng, refs, tags, run.prs)
             if limit:
                 singles = singles[:limit]
@@ -642,6 +851,20 @@ def _work(args):
         import traceback
         return {'i': i, 'error': traceback.format_exc()[-2500:], 'cfg': cfg.as_dict(), 'events': evs}
     return finish(i, cfg, mode, evs, recs, info, use_model)
+
+
+def _work_resume(args):
+    seed, j, use_model, base = args
+    rng = common.rng_for(seed, PID, 'resume', j)
+    cfg, label, evs, b = gen_resume_state(rng, j)
+    try:
+        recs, info = run_state(cfg, evs, lambda refs: resume_jobs(rng, refs, b), None, base)
+    except Exception:
+        import traceback
+        return {'i': 'resume-%d' % j, 'error': traceback.format_exc()[-2500:], 'cfg': cfg.as_dict(), 'events': evs}
+    out = finish('resume-%d' % j, cfg, 'queue' if cfg.use_queue else 'noqueue', evs, recs, info, use_model)
+    out['resume'] = {'label': label, 'branch': b}
+    return out
 
 
 def finish(i, cfg, mode, evs, recs, info, use_model):
@@ -682,6 +905,22 @@ def collect(res, outs, corpus=False):
         if o['info']['hotfix_queue']:
             res.count('hotfix-queue')
         res.extra['states'] = res.extra.get('states', 0) + 1
+        rs = o.get('resume')
+        if rs:
+            b = rs['branch']
+            res.count('resume-state:' + rs['label'])
+            what = ('queued-prs' if b in o['info']['queued_on'] else
+                    'live-stab' if b.startswith('development/') and any(
+                        d.startswith('stabilization/%s.' % version_of(b)) for d in o['info']['dests']) else 'free')
+            tagged = ('tag-on-tip' if b in o['info']['tag_on_tip'] else
+                      'tag-elsewhere' if b in o['info']['tag_elsewhere'] else
+                      'no-tag' if b in o['info']['dests'] else 'gone')
+            res.count('resume-reached:%s:%s:%s:%s' % (b.split('/')[0], tagged, what, o['mode']))
+            first = o['jobs'][0]
+            res.count('resume-redelivered:%s:%s:%s -> %s%s' % (b.split('/')[0], tagged, what, first['status'],
+                                                               ':' + first['why'].split(':')[0] if first['why'] else ''))
+        elif o['info'].get('tag_on_tip'):
+            res.count('states-with-a-tag-on-a-tip')
         for j in o['jobs']:
             st = j['step']
             res.evaluations += 1
@@ -751,9 +990,18 @@ def correspondence(ctx):
     base = common.scratch()
     use_model = ctx.model is not None
     collect(res, replay_corpus(use_model, base))
+    nres = (2 if ctx.tier == 'quick' else 12) * len(resume_combos()) * ctx.scale
+    import time
     with Pool(common.NCPU) as pool:
+        t0 = time.time()
         outs = pool.map(_work, [(ctx.seed, i, use_model, base, None) for i in range(n)], chunksize=1)
+        t1 = time.time()
+        routs = pool.map(_work_resume, [(ctx.seed, j, use_model, base) for j in range(nres)], chunksize=1)
+        t2 = time.time()
     collect(res, outs)
+    collect(res, routs)
+    res.extra['resume_states'] = nres
+    res.extra['wall_s_by_part'] = {'history states': round(t1 - t0, 1), 'resume states': round(t2 - t1, 1)}
     return res
 
 
